@@ -8,7 +8,7 @@ by a named lemma (D3), by the Page invariant (D4), by iteration bounds (D5) or b
 Everything else is a finding.
 """
 import re
-from mireval import Evaluator, Unsupported, fmt_term, mk_int, int_bits, term_type
+from mireval import Evaluator, Unsupported, fmt_term, mk_int, int_bits, term_type, State
 from models import Models
 from facts import loc
 
@@ -207,10 +207,17 @@ class PanicInventory:
                     self.fmt_types.add((m.group(1), a["s"], a.get("adt")))
 
     def scan_path(self, ev, p, entry):
-        iv = Interval(p.cons)
-        st = p.state
+        iv_end = Interval(p.cons)
+        st_end = p.state
         for e in p.trace:
             k = e[0]
+            iv, st = iv_end, st_end
+            if k in State.JUDGED and isinstance(e[-1], frozenset):
+                # judge with what was known when the event happened
+                import copy
+                st = copy.copy(st_end)
+                st.cons = dict(e[-1])
+                iv = Interval(st.cons)
             if k == "assert_decided":
                 o = self.ob("assert:" + e[1], e[3], "%s assert" % e[1], sig_of(e[2]))
                 self.settle(o, "D1 decided by the path's own tests")
@@ -280,6 +287,10 @@ class PanicInventory:
                 tr = iv.ty_range(ty) if ty else None
                 if r and tr and tr[0] <= r[0] and r[1] <= tr[1]:
                     return ("D2 interval %s within %s" % (list(r), ty), None)
+                if op == "Sub" and ty and not ty.startswith("i"):
+                    why = self.nonneg_difference(a, b)
+                    if why:
+                        return (why, None)
                 return (None, "interval of %s(%s, %s) is %s, not within %s" % (op, fmt_term(a), fmt_term(b), list(r) if r else "unbounded", ty or "its type"))
             return (None, "overflow check of unrecognised shape")
         if msg == "BoundsCheck":
@@ -297,6 +308,25 @@ class PanicInventory:
         if msg in ("DivisionByZero", "RemainderByZero"):
             return (None, "divisor not shown non-zero")
         return (None, "assert kind %s has no rule" % msg)
+
+    def nonneg_difference(self, a, b):
+        """D7: a - b cannot underflow when, in canonical polynomial form over the naturals (A7), a - b has only non-negative
+        coefficients, possibly after removing one instance of  k*ceil(e/k) - e  (>= 0 for every natural e)."""
+        from a7 import canon, Poly, NotCanon
+        try:
+            diff = canon(a).add(canon(b), -1)
+        except (NotCanon, Exception):
+            return None
+        if all(c >= 0 for c in diff.t.values()):
+            return "D7 %s - %s is the polynomial %r with non-negative coefficients over naturals" % (fmt_term(a)[:40], fmt_term(b)[:40], diff)
+        for m, c in diff.t.items():
+            if len(m) == 1 and m[0][0] == "cdiv" and c >= m[0][2]:
+                k = m[0][2]
+                e = Poly(dict(m[0][1]))
+                rest = diff.add(Poly({m: k}), -1).add(e)
+                if all(c2 >= 0 for c2 in rest.t.values()):
+                    return "D7 %d*ceil(e/%d) - e >= 0 with e = %r; remainder %r has non-negative coefficients" % (k, k, e, rest)
+        return None
 
     def ty_from_terms(self, a, b):
         """result type of an arithmetic op from its operands (MIR binops are homogeneous)"""
